@@ -98,7 +98,9 @@ def _run_psd(case, ctx):
     branch = r.choice(["ads", "des"])
     ads_name, props = _adsorbate(r, case["seed"] % 50)
     M, rho, gamma = props["molar_mass"], props["liquid_density"], props["surface_tension"]
-    T = round(r.uniform(60, 320), 3)
+    # half of the cases share a few temperatures between different adsorbate property sets (the same Kelvin model and
+    # temperature recur with another adsorbate within one process)
+    T = round(r.uniform(60, 320), 3) if r.random() < 0.5 else r.choice([77.355, 87.3, 298.15])
     n = r.choice([4, 5, 8, 20, 60]) if r.random() < 0.5 else r.randint(4, 80)
     p = numpy.array(gen.increasing(r, n, 0.02, 0.998, log=r.random() < 0.3))
     shape = case["shape"]
@@ -243,7 +245,7 @@ def _run_kelvin(case, ctx):
     from pygaps.characterisation.models_kelvin import kelvin_radius
     from pygaps.characterisation.models_kelvin import kelvin_radius_kjs
     r = gen.rng(case["seed"], "k")
-    M, rho, gamma, T = gen.log_uniform(r, 10, 200), r.uniform(0.4, 2.0), r.uniform(3, 80), r.uniform(60, 320)
+    M, rho, gamma, T = gen.log_uniform(r, 10, 200), r.uniform(0.4, 2.0), r.uniform(3, 80), (r.uniform(60, 320) if r.random() < 0.5 else r.choice([77.355, 87.3, 298.15]))
     p = numpy.array(sorted(r.uniform(1e-4, 0.9999) for _ in range(12)))
     for men, f in F_MENISCUS.items():
         exp = _kelvin(p, men, T, rho, M, gamma)
